@@ -16,6 +16,7 @@ HOOK_COMMITS = ["1ad419a verif hook: worker-pool limits and forced copy path beh
 
 PROPS = {
     "C14": dict(
+        facts=True,
         families=[dict(name="c14")],
         level_text="Theorems C14_checksum / C14_error_propagates / C14_sequence: for every byte string, read "
                    "chunking, buffer size, pool state and sequence of computations the model of ChecksumBuffer "
@@ -47,6 +48,7 @@ PROPS = {
                      "stage files are loaded by the real stage.FromFile; YAML is not modelled here (C17)"],
     ),
     "C05": dict(
+        facts=True,
         families=[dict(name="edits", args=["-specs", "6"]), dict(name="tree", args=["-specs", "15"])],
         level_text="Theorems C05_iff (ContentsMatch is true exactly when the workspace entry, links followed, equals the "
                    "tree the recorded checksum stands for and that tree is in the cache), C05_file_iff, C05_skip, "
@@ -62,6 +64,7 @@ PROPS = {
                      "no symlinked directories on artifact paths; links into the cache are recognised lexically"],
     ),
     "C06": dict(
+        facts=True,
         families=[dict(name="prestate", args=["-specs", "4,5"])],
         level_text="Theorems C06_frame (a successful checkout `preserved` every pre-existing entry: unchanged, newly "
                    "created, a matching link replaced by a copy of the very object, or a directory whose entries are "
@@ -96,6 +99,7 @@ PROPS = {
         assumptions=[],
     ),
     "C12": dict(
+        facts=True,
         families=[dict(name="lock")],
         level_text="Theorems C12_mutex, C12_refused_clean, C12_released, C12_quiescent_unlocked, C12_bounded over a "
                    "transition system of any number of dud processes with arbitrary interleaving (atomic O_EXCL acquire, "
@@ -109,6 +113,7 @@ PROPS = {
         assumptions=["open(O_CREAT|O_EXCL) is atomic", "a process is not killed (exits on its own)"],
     ),
     "C13": dict(
+        facts=True,
         families=[dict(name="pool", timeout=1500)],
         level_text="Theorems C13_flat_terminates (every schedule of one directory level has at most 5N+4 steps), "
                    "C13_flat_progress / C13_flat_can_finish (no deadlock with >= 1 dedicated worker even if the shared "
@@ -141,6 +146,7 @@ PROPS = {
                      "entry names are single path components; no symlinked directories on artifact paths"],
     ),
     "C02": dict(
+        facts=True,
         families=[dict(name="tree", args=["-specs", "1,12"]), dict(name="hist", args=["-specs", "1,12"]),
                   dict(name="pipe", args=["-specs", "1,12"])],
         level_text="Theorems C02_history / C02_step / C02_commit / C02_initial: for every history of commands of the "
@@ -232,5 +238,20 @@ PROPS = {
         level_note="Containment is lexical: no symlinked directories on the way. The model addresses writes relative to "
                    "the root by construction; that the binary writes only there is observed, not proved.",
         assumptions=["no symlinked directories on artifact paths", "rclone writes only the listed relative paths under its destination"],
+    ),
+    "C11": dict(
+        facts=True,
+        families=[dict(name="remote")],
+        level_text="Theorems C11_push_closure, C11_push_fails_on_missing, C11_push_ok_iff, C11_fetch_complete, "
+                   "C11_then_checkout (push, lose any subset, fetch: checkout behaves exactly as from the pushed cache "
+                   "and every object is 0444), C11_scope over the model of push.go / fetch.go. proof, partial: rclone is "
+                   "the function `transfer` (contract emulated by harness/fakebin/rclone). Tied to the code by pushing "
+                   "1-3 stage projects (nesting, identical names in different directories, duplicate contents) to a "
+                   "partially pre-populated remote, wiping an arbitrary subset of the local cache, fetching, and checking "
+                   "out; remote and local object sets are compared with the model and the closure is recomputed in Coq.",
+        level_note="A genuine defect found by the proof attempt (fetch merged children by checksum only) was reproduced "
+                   "on the binary and repaired. no_slash: file checksums contain no '/'.",
+        assumptions=["rclone copies exactly the listed existing files and never overwrites (transfer contract)",
+                     "H collision-free on the strings involved"],
     ),
 }
